@@ -144,6 +144,8 @@ func treeFromAny(v any) tree {
 		return leaf("num", canon32(tv))
 	case string:
 		return leaf("str", tv)
+	case json.Number: // sen.Parse hands numbers beyond int64 / float64 precision on as their text
+		return leaf("num", canonNum(string(tv)))
 	case time.Time:
 		return leaf("num", strconv.FormatInt(tv.UnixNano(), 10))
 	case []any:
